@@ -301,7 +301,7 @@ pub enum Engine {
     RawId,
 }
 
-fn scratch_dir(tag: &str) -> PathBuf {
+pub(crate) fn scratch_dir(tag: &str) -> PathBuf {
     let base = std::env::var("SV_C13_TMP").unwrap_or_else(|_| "/tmp/C13".to_string());
     let d = PathBuf::from(base).join(format!("{}-{}", std::process::id(), tag));
     let _ = std::fs::remove_dir_all(&d);
@@ -309,7 +309,7 @@ fn scratch_dir(tag: &str) -> PathBuf {
     d
 }
 
-trait Exec {
+pub trait Exec {
     fn run(&mut self, op: &str) -> String;
 }
 impl<S: ServerPersistence> Exec for Sys<S> {
@@ -320,6 +320,10 @@ impl<S: ServerPersistence> Exec for Sys<S> {
 
 pub fn open_rocks(dir: PathBuf) -> Option<impl ServerPersistence> {
     swimos_rocks_store::open_rocks_store(Some(dir), swimos_rocks_store::default_db_opts()).ok()
+}
+
+pub(crate) fn rocks_sys_at(dir: PathBuf) -> impl Exec {
+    rocks_sys(dir)
 }
 
 fn rocks_sys(dir: PathBuf) -> impl Exec {
